@@ -1,15 +1,95 @@
-import Autog.Lemmas.LongestPath
+import Autog.Lemmas.Layers
+import Autog.Model.Phase4
 import Autog.Lemmas.NsInitLayersKahn
-import Autog.Lemmas.Phase4Simple
-/-! # C03
-    Bands and downward edges. First pass: assignY bands; Kahn layering is feasible; tight-tree shift keeps feasibility. -/
+import Autog.Lemmas.LongestPath
+/-! # C03 — layers are horizontal bands and edges flow downward
+
+    (ii) Bands: theorems about the model function `assignYCoords` (Autog/Model/Phase4.lean; compared with the real
+    code by the correspondence keys `T:phase4-*` and `T:assignY` on every traced run, for every positioner).
+    (iii)–(v) Downward edges rest on the layering being feasible: proved for the Kahn initialisation of network simplex
+    and for longest-path heights on the machines the models instantiate; the simplex pivots are covered by the
+    per-run feasibility predicate (partial, see DESIGN.md). -/
 
 namespace Autog
+open Phase4Simple
 
-theorem C03_assignY_bands : type_of% @Phase4Simple.assignY_bands := @Phase4Simple.assignY_bands
+theorem assignY_length (ls : Rat) : ∀ (hs : List Rat) (y : Rat), (assignY ls y hs).length = hs.length
+  | [], _ => rfl
+  | h :: hs, y => by simp [assignY, assignY_length ls hs]
+
+theorem layerYs_length (ls : Rat) (g : G) : (layerYs ls g).length = g.layers.toList.length := by
+  simp [layerYs, assignY_length]
+
+theorem assignYPlan_fst (ls : Rat) (g : G) : (assignYPlan ls g).map (·.1) = g.layers.toList.map (·.nodes) := by
+  unfold assignYPlan
+  rw [List.map_map]
+  have : ((fun (p : List Nat × List Rat) => p.1) ∘ fun (x : Layer × Rat) => (x.1.nodes, List.replicate x.1.nodes.length x.2))
+      = (fun l => l.nodes) ∘ Prod.fst := rfl
+  rw [this, ← List.map_map, List.map_fst_zip (by rw [layerYs_length]; exact Nat.le_refl _)]
+
+theorem assignYPlan_wf (ls : Rat) (g : G) (hwf : LayersWF g) : PlWF g (assignYPlan ls g) := by
+  have hfm : (assignYPlan ls g).flatMap (·.1) = g.layers.toList.flatMap (·.nodes) := by
+    rw [List.flatMap_def, assignYPlan_fst, ← List.flatMap_def]
+  refine ⟨by rw [hfm]; exact hwf.nodup, fun n hn => by rw [hfm] at hn; exact hwf.bound n hn, ?_⟩
+  intro p hp
+  unfold assignYPlan at hp
+  obtain ⟨q, _, rfl⟩ := List.mem_map.1 hp
+  simp
+
+/-- (i) all nodes of the i-th layer get the i-th value of `layerYs`, and nothing but y changes -/
+theorem C03_band_y (ls : Rat) (g : G) (hwf : LayersWF g) (i : Nat) (hi : i < g.layers.toList.length) :
+    ∀ n ∈ (g.layers.toList[i]).nodes,
+      ((assignYCoords ls g).node n).y = (layerYs ls g)[i]'(by rw [layerYs_length]; exact hi) := by
+  intro n hn
+  have hiy : i < (layerYs ls g).length := by rw [layerYs_length]; exact hi
+  have hp : ((g.layers.toList[i]).nodes, List.replicate (g.layers.toList[i]).nodes.length ((layerYs ls g)[i])) ∈ assignYPlan ls g := by
+    unfold assignYPlan
+    refine List.mem_map.2 ⟨(g.layers.toList[i], (layerYs ls g)[i]), ?_, rfl⟩
+    have hi' : i < g.layers.size := by simpa using hi
+    exact List.mem_iff_getElem.2 ⟨i, by simp; omega, by simp⟩
+  have := placeY_ys (assignYPlan ls g) g (assignYPlan_wf ls g hwf) _ hp
+  obtain ⟨k, hk, rfl⟩ := List.mem_iff_getElem.1 hn
+  have h2 := congrArg (fun l => l[k]?) this
+  simp only [List.getElem?_map, List.getElem?_replicate, hk, if_true, List.getElem?_eq_getElem hk, Option.map_some] at h2
+  exact Option.some.inj h2
+
+theorem C03_only_y_changes (ls : Rat) (g : G) (n : Nat) :
+    ((assignYCoords ls g).node n).dropY = (g.node n).dropY := placeY_dropY _ g n
+
+/-- (ii) for i < j the j-th band starts at least LayerSpacing below the i-th band's Y plus the i-th layer height;
+    with `layer.h` at least the height of every node of the layer (what the positioners leave behind, see
+    `growH_ge`), that is: below the bottom of the tallest node of the band above -/
+theorem C03_bands_apart (ls : Rat) (hls : 0 ≤ ls) (g : G) (hh : ∀ l ∈ g.layers.toList, 0 ≤ l.h)
+    (i j : Nat) (hij : i < j) (hj : j < g.layers.toList.length) :
+    (layerYs ls g)[i]'(by rw [layerYs_length]; omega) + (g.layers.toList[i]'(by omega)).h + ls
+      ≤ (layerYs ls g)[j]'(by rw [layerYs_length]; exact hj) := by
+  have hb := assignY_bands ls hls (g.layers.toList.map (·.h)) 0 (by
+    intro h hmem; obtain ⟨l, hl, rfl⟩ := List.mem_map.1 hmem; exact hh l hl)
+  rw [List.pairwise_iff_getElem] at hb
+  have hlen : ((assignY ls 0 (g.layers.toList.map (·.h))).zip (g.layers.toList.map (·.h))).length = g.layers.toList.length := by
+    simp [assignY_length]
+  have := hb i j (by rw [hlen]; omega) (by rw [hlen]; exact hj) hij
+  simpa [layerYs] using this
+
+/-- the layer height the positioners leave behind dominates every node height of the layer -/
+theorem growH_ge (g : G) (l : Layer) (n : Nat) (hn : n ∈ l.nodes) : (g.node n).h ≤ (growH g l).h := by
+  unfold growH heightsOf
+  exact le_foldl_maxRat _ _ _ (List.mem_map.2 ⟨n, hn, rfl⟩)
+
+theorem growH_nonneg (g : G) (l : Layer) (h0 : 0 ≤ l.h) : 0 ≤ (growH g l).h := by
+  unfold growH
+  exact Rat.le_trans h0 (foldl_maxRat_ge_init _ _)
+
+/-! (iii) feasibility of the layering, on the machines the phase-2 models run -/
 
 theorem C03_ns_init_feasible : type_of% @NsInitLayersKahn.init_feasible := @NsInitLayersKahn.init_feasible
+theorem C03_longestpath_heights : type_of% @LongestPath.run_inv := @LongestPath.run_inv
 
-theorem C03_longestpath_inv : type_of% @LongestPath.run_inv := @LongestPath.run_inv
+/-! non-vacuity -/
+def exG3 : G :=
+  { nodes := #[{ id := "a", h := 10 }, { id := "b", h := 4 }, { id := "c", h := 7 }],
+    layers := #[{ index := 0, nodes := [0], h := 10 }, { index := 1, nodes := [1, 2], h := 7 }] }
+example : LayersWF exG3 := ⟨by decide, by decide⟩
+example : ((assignYCoords 5 exG3).nodes.toList.map (·.y)) = [0, 15, 15] := by decide +kernel
 
 end Autog
